@@ -136,7 +136,11 @@ func TestVerifReplayC09(t *testing.T) {
 		ctxEnv["FOO"] = val[1]
 	}
 	ctx := runner.NewExecutionContext(nil, "", variables.FromMap(ctxEnv), nil, nil, nil, nil)
+	second, _ := sc.Inputs["a-second-variation-that-does-not-define-the-name"].(bool)
 	cmd := fmt.Sprintf(`echo "FOO=${FOO-<unset>}|OTHER=$OTHER|TASK_NAME=$TASK_NAME" >> %s`, trace)
+	if second {
+		cmd = fmt.Sprintf(`echo "FOO=${FOO-<unset>}|OTHER=$OTHER|TASK_NAME=$TASK_NAME|ONLY_FIRST=${ONLY_FIRST-<unset>}" >> %s`, trace)
+	}
 	def := &taskDefinition{Name: "tk", Command: []string{cmd}, Context: "ctx"}
 	if has[2] {
 		def.EnvFile = filepath.Join(dir, "env.file")
@@ -147,6 +151,13 @@ func TestVerifReplayC09(t *testing.T) {
 	}
 	if has[5] {
 		def.Variations = []map[string]string{{"FOO": val[5]}}
+	}
+	if second {
+		first := map[string]string{"ONLY_FIRST": "1"}
+		if has[5] {
+			first["FOO"] = val[5]
+		}
+		def.Variations = []map[string]string{first, {"ONLY_SECOND": "2"}}
 	}
 	tk, err := buildTask(def, &loaderContext{Dir: dir})
 	if err != nil {
@@ -177,6 +188,16 @@ func TestVerifReplayC09(t *testing.T) {
 		wantFoo = "<unset>"
 	}
 	exp := fmt.Sprintf("FOO=%s|OTHER=%s|TASK_NAME=tk", wantFoo, other)
+	if second {
+		// the second variation's command sees the highest level below the variation level
+		w2 := "<unset>"
+		for l := 0; l < 5; l++ {
+			if has[l] {
+				w2 = val[l]
+			}
+		}
+		exp = exp + "|ONLY_FIRST=1\n" + fmt.Sprintf("FOO=%s|OTHER=%s|TASK_NAME=tk|ONLY_FIRST=<unset>", w2, other)
+	}
 	fmt.Printf("REPLAY: levels=%v values=%q expected %q observed %q\n", has, val, exp, got)
 	if got != exp {
 		fmt.Println("REPLAY: reproduced: the command's environment does not follow the precedence")
